@@ -162,6 +162,14 @@ func (g *Gen) stmt(depth int) []*Node {
 		2,  // 19 destructuring assignment
 		2,  // 20 super method call
 		16, // 21 use a known function / class / object
+		6,  // 22 function name observation (NamedEvaluation / SetFunctionName)
+		5,  // 23 closures over per-iteration loop bindings, created statically or by direct eval, called after the loop
+	}
+	if deep || g.budget <= 0 {
+		w[23] = 0
+	}
+	if g.off(NoEval) && g.off(NoForOf) {
+		w[23] = 0
 	}
 	if g.fdepth >= 2 {
 		w[13], w[14] = 1, 1
@@ -222,7 +230,7 @@ func (g *Gen) stmt(depth int) []*Node {
 	if g.fn == nil && g.inTry == 0 {
 		wrapPct = 70
 	}
-	if k != 1 && k != 13 && k != 7 && k != 16 && k != 17 && k != 8 && g.chance(wrapPct) {
+	if k != 1 && k != 13 && k != 7 && k != 16 && k != 17 && k != 8 && k != 22 && k != 23 && g.chance(wrapPct) {
 		g.inTry++
 		g.push(false)
 		l := g.stmt1(k, depth)
@@ -314,6 +322,10 @@ func (g *Gen) stmt1(k, depth int) []*Node {
 		return []*Node{Log(c)}
 	case 21:
 		return []*Node{g.useKnown()}
+	case 22:
+		return g.nameProbe()
+	case 23:
+		return g.loopClosures(depth)
 	}
 	return []*Node{g.logStmt()}
 }
@@ -1081,5 +1093,185 @@ func dropThrowingDecls(l []*Node) []*Node {
 		}
 		out = append(out, st)
 	}
+	return out
+}
+
+// anonFn returns an anonymous function / arrow / class expression (a candidate for NamedEvaluation).
+func (g *Gen) anonFn() *Node {
+	switch g.pickW(40, 40, 20) {
+	case 0:
+		return Func("", nil, Ret(g.numLit()))
+	case 1:
+		return ArrowExpr(nil, g.numLit())
+	}
+	if g.off(NoClasses) {
+		return Func("", nil)
+	}
+	return &Node{K: KClass}
+}
+
+// nameTarget returns an identifier that can be assigned (declaring it with var when none is at hand).
+func (g *Gen) nameTarget(pre *[]*Node) string {
+	if b := g.pickBinding(hAny, true); b != nil && b.kind != "const" && g.chance(60) {
+		b.holds = hAny
+		return b.name
+	}
+	name := g.pick(namePool)
+	for tries := 0; tries < 6 && !g.canVar(name); tries++ {
+		name = g.pick(namePool)
+	}
+	if !g.canVar(name) {
+		name = g.fresh("t")
+	}
+	g.declVar(name, hAny)
+	*pre = append(*pre, &Node{K: KVar, S: "var", L: []*Node{{K: KDeclr, A: Id(name)}}})
+	return name
+}
+
+// nameProbe: statements that give an anonymous function its name through its syntactic position and log it.
+func (g *Gen) nameProbe() []*Node {
+	var out []*Node
+	logName := func(e *Node) *Node { return Log(Dot(e, "name")) }
+	switch g.pickW(20, 30, 12, 14, 12, 12) {
+	case 0:
+		// name of something declared earlier
+		var cands []*gbind
+		for _, b := range g.visible() {
+			if b.holds == hFunc || b.holds == hClass {
+				cands = append(cands, b)
+			}
+		}
+		if len(cands) > 0 {
+			b := cands[g.r.Intn(len(cands))]
+			return []*Node{logName(Id(b.name))}
+		}
+		fallthrough
+	case 1:
+		// destructuring assignment with a default that is taken (the dynamically resolved path matters)
+		if g.off(NoDestructuring) || g.off(NoDefaults) {
+			t := g.nameTarget(&out)
+			return append(out, ExprStmt(Assign("=", Id(t), g.anonFn())), logName(Id(t)))
+		}
+		t := g.nameTarget(&out)
+		var pat *Node
+		src := Arr()
+		switch g.pickW(40, 35, 25) {
+		case 0:
+			pat = &Node{K: KArrPat, L: []*Node{{K: KPatElem, A: Id(t), B: g.anonFn()}}}
+		case 1:
+			pat = &Node{K: KObjPat, L: []*Node{{K: KPatProp, S: t, A: Id(t), B: g.anonFn(), F: FShorthand}}}
+			src = Obj()
+		default:
+			pat = &Node{K: KObjPat, L: []*Node{{K: KPatProp, S: g.pick(propPool), A: Id(t), B: g.anonFn()}}}
+			src = Obj()
+		}
+		return append(out, ExprStmt(Assign("=", pat, src)), logName(Id(t)))
+	case 2:
+		// destructuring declaration
+		if g.off(NoDestructuring) || g.off(NoDefaults) {
+			break
+		}
+		kind := []string{"var", "let", "const"}[g.r.Intn(3)]
+		var names []string
+		t := g.bindingTarget(kind, hAny, 0, &names)
+		g.declare(kind, t.S, hAny)
+		pat := &Node{K: KArrPat, L: []*Node{{K: KPatElem, A: t, B: g.anonFn()}}}
+		src := Arr()
+		if g.chance(50) {
+			pat = &Node{K: KObjPat, L: []*Node{{K: KPatProp, S: g.pick(propPool), A: t, B: g.anonFn()}}}
+			src = Obj()
+		}
+		return []*Node{{K: KVar, S: kind, L: []*Node{{K: KDeclr, A: pat, B: src}}}, logName(Id(t.S))}
+	case 3:
+		// logical assignment / plain assignment / member assignment (no name)
+		t := g.nameTarget(&out)
+		switch g.pickW(40, 30, 30) {
+		case 0:
+			return append(out, ExprStmt(Assign("=", Id(t), Undef())), ExprStmt(Assign(g.pick([]string{"??=", "||="}), Id(t), g.anonFn())), logName(Id(t)))
+		case 1:
+			return append(out, ExprStmt(Assign("=", Id(t), g.anonFn())), logName(Id(t)))
+		}
+		return append(out, ExprStmt(Assign("=", Id(t), Obj())), ExprStmt(Assign("=", Dot(Id(t), "p"), g.anonFn())), logName(Dot(Id(t), "p")))
+	case 4:
+		// object literal values, methods, computed keys
+		t := g.nameTarget(&out)
+		o := Obj(Prop("p", g.anonFn()), &Node{K: KProp, S: "m", B: &Node{K: KFunc, F: FMethod}, F: FMethod},
+			&Node{K: KProp, A: Bin("+", Str("q"), Str(g.pick([]string{"", "r"}))), B: g.anonFn(), F: FComputed})
+		return append(out, ExprStmt(Assign("=", Id(t), o)), Log(Dot(Dot(Id(t), "p"), "name"), Dot(Dot(Id(t), "m"), "name"), Dot(Index(Id(t), Str("q")), "name")))
+	case 5:
+		// parameter default
+		t := g.pick(valNames)
+		f := Func("", []*Node{{K: KPatElem, A: Id(t), B: g.anonFn()}}, Ret(Dot(Id(t), "name")))
+		if g.chance(40) {
+			f = Arrow([]*Node{{K: KPatElem, A: Id(t), B: g.anonFn()}}, Ret(Dot(Id(t), "name")))
+		}
+		return []*Node{Log(Call(f))}
+	}
+	t := g.nameTarget(&out)
+	return append(out, ExprStmt(Assign("=", Id(t), g.anonFn())), logName(Id(t)))
+}
+
+// loopClosures: a loop whose body stores, per iteration, a closure over the loop variable — written statically, created by
+// direct eval text, or resolving the name through a direct eval when called — and calls them after the loop.
+func (g *Gen) loopClosures(depth int) []*Node {
+	arr := g.fresh("q")
+	g.declVar(arr, hArr)
+	out := []*Node{Var("var", Id(arr), Arr())}
+	g.push(false)
+	v := g.pick(valNames)
+	if !g.canLex(v) {
+		v = g.fresh("i")
+	}
+	b := g.declLex(v, "let", hNum)
+	b.protect = true
+	trips := float64(2 + g.r.Intn(2))
+	closure := func() *Node {
+		body := Id(v)
+		k := g.pickW(25, 20, 25, 15, 15)
+		if g.off(NoEval) && k >= 2 {
+			k = g.r.Intn(2)
+		}
+		switch k {
+		case 0:
+			return ArrowExpr(nil, body)
+		case 1:
+			return Func("", nil, Ret(body))
+		case 2:
+			// the closure is created by eval'd text: no static capture of the loop variable
+			if g.chance(50) {
+				return &Node{K: KEval, L: []*Node{ExprStmt(ArrowExpr(nil, body))}}
+			}
+			return &Node{K: KEval, L: []*Node{ExprStmt(Func("", nil, Ret(body)))}}
+		case 3:
+			return ArrowExpr(nil, &Node{K: KEval, L: []*Node{ExprStmt(body)}})
+		}
+		return Func("", nil, Ret(&Node{K: KEval, L: []*Node{ExprStmt(body)}}))
+	}
+	var loop *Node
+	store := ExprStmt(Assign("=", Index(Id(arr), Id(v)), closure()))
+	g.loops++
+	extra := g.stmtList(g.r.Intn(2), depth+2, false)
+	g.loops--
+	bodyStmts := append([]*Node{store}, extra...)
+	if g.chance(25) {
+		// the loop variable is changed after the closure was created: the closure sees this iteration's final value
+		bodyStmts = append(bodyStmts, ExprStmt(Assign("=", Index(Id(arr), Bin("+", Id(v), Num(10))), closure())))
+	}
+	if g.off(NoForOf) || g.chance(70) {
+		loop = &Node{K: KFor, A: Var("let", Id(v), Num(0)), B: Bin("<", Id(v), Num(trips)), C: &Node{K: KUpdate, S: "++", A: Id(v)}, D: Block(bodyStmts...)}
+	} else {
+		src := Arr()
+		for i := 0; i < int(trips); i++ {
+			src.L = append(src.L, Num(float64(i)))
+		}
+		loop = &Node{K: KForOf, A: &Node{K: KVar, S: g.pick([]string{"let", "const"}), L: []*Node{{K: KDeclr, A: Id(v)}}}, B: src, D: Block(bodyStmts...)}
+	}
+	g.pop()
+	out = append(out, loop)
+	var calls []*Node
+	for i := 0; i < int(trips); i++ {
+		calls = append(calls, Call(Index(Id(arr), Num(float64(i)))))
+	}
+	out = append(out, Log(calls...))
 	return out
 }
